@@ -132,9 +132,14 @@ func stateDump(dialect string, m *element.Migration) string {
 				attrDump(dialect, c.CurrentAttr), attrDump(dialect, c.PreviousAttr)))
 		}
 		lines = append(lines, " CI "+mapDump(unexported(tv, "columnIndexes").Interface().(map[string]int)))
-		for _, ix := range t.Indexes {
-			lines = append(lines, fmt.Sprintf(" I %s old=%s act=%d typ=%d itype=%s pk=%v cols=%s", ix.Name, ix.OldName, ix.Action,
-				ix.Typ, ix.IndexType.String(), ix.CnsTyp == ast.ConstraintPrimaryKey, strings.Join(ix.Columns, ",")))
+		for ixi, ix := range t.Indexes {
+			prev := "~"
+			if pv := reflect.ValueOf(&t.Indexes[ixi]).Elem().FieldByName("previous"); pv.IsValid() && !pv.IsNil() {
+				p := reflect.NewAt(pv.Type(), unsafe.Pointer(pv.UnsafeAddr())).Elem().Interface().(*element.Index)
+				prev = fmt.Sprintf("%s:%d:%s:%v:%s", p.Name, p.Typ, p.IndexType.String(), p.CnsTyp == ast.ConstraintPrimaryKey, strings.Join(p.Columns, ","))
+			}
+			lines = append(lines, fmt.Sprintf(" I %s old=%s act=%d typ=%d itype=%s pk=%v cols=%s prev=%s", ix.Name, ix.OldName, ix.Action,
+				ix.Typ, ix.IndexType.String(), ix.CnsTyp == ast.ConstraintPrimaryKey, strings.Join(ix.Columns, ","), prev))
 		}
 		lines = append(lines, " II "+mapDump(unexported(tv, "indexIndexes").Interface().(map[string]int)))
 		for _, f := range t.ForeignKeys {
